@@ -58,7 +58,8 @@ def run(case, rewards=None):
     c = case
     if rewards is not None:
         c = dict(case)
-        c["reward"] = {"law": "explicit", "params": {"values": rewards}, "npfloat": case["reward"].get("npfloat", False)}
+        c["reward"] = {"law": "explicit", "params": {"values": rewards}, "npfloat": case["reward"].get("npfloat", False),
+                       "inttype": case["reward"].get("inttype", False)}
     with Session(c) as s:
         try:
             s.construct()
